@@ -57,7 +57,16 @@ def doLine (line : String) : String :=
   let sBefore := c.ms.foldl Lcm.St.step {}
   let sAfter := tailMsgs.foldl Lcm.St.step sBefore
   let room := ((c.caps.drop 1).foldl (· + ·) 0) + 6
-  let live := c.tail > 0 && (if c.restarting then decide (sAfter.out.length ≥ sBefore.out.length + room) else sAfter.bufLcs.isEmpty)
+  -- behind the lifecycle stage the sort stage holds a message back for (2 s + the largest recent buffering delay): with every
+  -- message of the case at most 100 s behind its calculated time (measured against the final lifecycle starts, an upper bound
+  -- for the starts the sort stage saw) it releases - and meets the closed channel - well inside the 250 tail messages
+  let delaysSmall : Bool :=
+    let sf := sAfter.finish
+    sf.out.all fun o => match assocGet o.m.lc sf.published with
+      | some l => decide (o.m.recv - min o.m.recv (l.start + o.m.tsUs) ≤ 100000000)
+      | none => false
+  let live := c.tail > 0 && (if c.restarting then decide (sAfter.out.length ≥ sBefore.out.length + room) else sAfter.bufLcs.isEmpty) &&
+    (!c.sort || delaysSmall)
   let mobs := s!"B {m} # U {m} # term=1 # perr={if live then "1" else "-"}"
   let parts := impl.splitOn " # "
   let (b, u, t, pe) := match parts with
